@@ -58,6 +58,20 @@ func judgeMarkers(rep *lib.Report, s []byte, model *markersLine) {
 	if !bytes.Equal(rb, s) {
 		rep.Violate("markers:input-modified", "the input byte slice was modified", kase)
 	}
+	// results are values of their own: a later call (of any length) does not change what an earlier one returned
+	{
+		keepS, keepR := rb.StripMarkers(), []byte(rb.Redact())
+		copyS, copyR := append([]byte(nil), keepS...), append([]byte(nil), keepR...)
+		for _, other := range []string{"‹interfering› payload", "x", strings.Repeat("‹y›z", 40)} {
+			_ = redact.RedactableBytes(other).StripMarkers()
+			_ = redact.RedactableBytes(other).Redact()
+			_ = redact.RedactableString(other).StripMarkers()
+			_ = redact.RedactableString(other).Redact()
+		}
+		if !bytes.Equal(keepS, copyS) || !bytes.Equal(keepR, copyR) {
+			rep.Violate("markers:result-aliased", fmt.Sprintf("a result of StripMarkers / Redact (bytes variant) changed when other values were processed afterwards: %q -> %q, %q -> %q", copyS, keepS, copyR, keepR), kase)
+		}
+	}
 	// conversions hand out values of their own: writing to the slice afterwards does not change a string obtained
 	// before, and writing to a slice obtained from a string does not change the string
 	if len(s) > 0 {
